@@ -73,6 +73,10 @@ func genConc(seed uint64, prop string) *Scenario {
 	sc := &Scenario{Family: "conc", Seed: seed, Cfg: cfg}
 	g := newGen(seed, 0x636f6e64, &sc.Cfg)
 	nsess := 2 + r.IntN(3)
+	deep := deepSeed(seed) && r.IntN(3) == 0
+	if deep {
+		nsess = 4 + r.IntN(3)
+	}
 	late := -1
 	if r.IntN(3) == 0 {
 		late = 1 + r.IntN(nsess-1) // this session connects and negotiates while the others are already at work
@@ -84,6 +88,9 @@ func genConc(seed uint64, prop string) *Scenario {
 		id := [2]uint64{0, uint64(5 + r.IntN(4))}
 		sc.Steps = append(sc.Steps, Step{T: "s-elect", Sess: s, Elec: &id})
 		nb := 1 + r.IntN(3)
+		if deep {
+			nb = 2 + r.IntN(6)
+		}
 		for b := 0; b < nb; b++ {
 			st := g.batchStep(s, concOps(g, s, 2+g.pick(5)))
 			st.T = "s-ops"
